@@ -25,7 +25,7 @@ RULE += ('; also: namespaces given as OrderedDict / UserDict / read-only mapping
 ASSUMPTIONS = ['attribute assignment on AttributesFrozendict does not change the mapping and is not judged',
                'specs whose non-callable default violates the port itself are rejected at definition time and skipped',
                'reference model written from the statement and documentation']
-REQUIRED = ['declared_by_dotted_paths', 'aliased_namespace_values', 'own_created_state_class', 'factory_defaults_compared', 'constructed', 'accepted', 'rejected', 'defaults_populated', 'callable_defaults', 'populate_defaults_false', 'dynamic_values', 'immutability_probes',
+REQUIRED = ['namespaces_declared_after_a_port_of_theirs', 'declared_by_dotted_paths', 'aliased_namespace_values', 'own_created_state_class', 'factory_defaults_compared', 'constructed', 'accepted', 'rejected', 'defaults_populated', 'callable_defaults', 'populate_defaults_false', 'dynamic_values', 'immutability_probes',
             'caller_dict_checks', 'metamorphic/idempotent', 'metamorphic/remove_required', 'metamorphic/wrong_type', 'nested_ns_levels', 'exposed_specs', 'legacy_validators', 'aliased_namespace_values', 'mapping_leaf_values']
 BOUNDS = {'quick': '250 specs (depth<=2) x 40 inputs', 'thorough': '4000 specs (depth<=3) x 60 inputs'}
 UN = '<absent>'
@@ -384,8 +384,12 @@ def gen_cases(tier, seed):
             yield {'spec': spec, 'inputs': inputs, 'si': s}
             if s % 4 == 0 and i % 2 == 0:
                 yield {'spec': spec, 'inputs': inputs, 'si': s, 'exposed': True}
+            if s % 4 == 2 and i % 2 == 0 and _first_nested(spec[2]) is not None:
+                yield {'spec': spec, 'inputs': inputs, 'si': s, 'exposed': 'extra'}
             if s % 4 == 1 and i % 3 == 0 and "'late'" not in repr(spec):
                 yield {'spec': spec, 'inputs': inputs, 'si': s, 'dotted': True}
+            if s % 4 == 3 and i % 3 == 0 and "'late'" not in repr(spec):
+                yield {'spec': spec, 'inputs': inputs, 'si': s, 'dotted': 'redeclare'}
 
 
 # ---------------------------------------------------------------------------------------
@@ -449,7 +453,25 @@ class OwnCreatedState(plumpy.Process):
         return states
 
 
-def _declare_dotted(pspec, children, prefix=''):
+def _first_nested(children, prefix=''):
+    """Path of the first nested namespace of the description that has ports and no 'zz' of its own (None if there is none)."""
+    for name, d in children.items():
+        if d[0] == 'ns' and d[2] and 'zz' not in d[2] and not d[1].get('valid_type') and 'default' not in d[1]:
+            return prefix + name
+    return None
+
+
+def with_extra_port(spec):
+    """The description of what the exposing class of the 'extra' variant declares: the spec plus the port 'zz' (default 3)."""
+    path = _first_nested(spec[2])
+    if path is None:
+        return spec
+    out = copy.deepcopy(spec)
+    out[2][path][2]['zz'] = ['port', {'default': ['val', 3]}]
+    return out
+
+
+def _declare_dotted(pspec, children, prefix='', redeclare=False):
     """Declare the ports by their dotted paths (``spec.input('opts.verbose', ...)``): a namespace that has no settings of its own is never
     declared, it comes into being with the first port below it -- and is the same namespace whichever port that happens to be."""
     for name, d in children.items():
@@ -458,13 +480,18 @@ def _declare_dotted(pspec, children, prefix=''):
             pspec.input(path, **_port_kwargs(d[1]))
         else:
             if d[1] or not d[2]:
+                first = next((n for n, c in d[2].items() if c[0] == 'port'), None)
+                if redeclare and first is not None:
+                    # (a port of the namespace is declared by its dotted path before the namespace itself is: the declaration of the
+                    # namespace that follows is the one that counts, and everything below it is declared after it)
+                    pspec.input(path + '.' + first, **_port_kwargs(d[2][first][1]))
                 pspec.input_namespace(path, **_port_kwargs(d[1]))
-            _declare_dotted(pspec, d[2], path + '.')
+            _declare_dotted(pspec, d[2], path + '.', redeclare)
 
 
 def spec_class(spec, si, exposed=False, dotted=False):
     if dotted:
-        key = 'dotted:' + repr(spec)
+        key = 'dotted:%s:' % dotted + repr(spec)
         if key in _CLS:
             return _CLS[key]
         top_attrs_, children_ = spec[1], spec[2]
@@ -473,7 +500,7 @@ def spec_class(spec, si, exposed=False, dotted=False):
             super(cls, cls).define(pspec)
             for k, v in _port_kwargs(top_attrs_).items():
                 setattr(pspec.inputs, k, v)
-            _declare_dotted(pspec, children_)
+            _declare_dotted(pspec, children_, redeclare=dotted == 'redeclare')
 
         cls = type('Dot_%d' % len(_CLS), (plumpy.Process,), {})
         cls.define = classmethod(define_dotted)
@@ -487,16 +514,27 @@ def spec_class(spec, si, exposed=False, dotted=False):
     if exposed:
         # the same ports arrive in the spec of another class through expose_inputs() (no namespace, nothing excluded): what is
         # accepted and how it is parsed follows the declaration, whichever way it reached the spec
-        key = 'exposed:' + repr(spec)
+        key = 'exposed:%s:' % exposed + repr(spec)
         if key in _CLS:
             return _CLS[key]
         base = spec_class(spec, si)
         if isinstance(base, tuple):
             return base
+        extra_path = _first_nested(spec[2]) if exposed == 'extra' else None
+        if exposed == 'extra':
+            # (the exposed class has been used before the exposing one is built: processes of it were constructed, or attempted)
+            for inputs in (None, {}):
+                try:
+                    base(inputs=inputs)
+                except Exception:  # noqa: BLE001
+                    pass
 
         def define_exposing(cls, pspec):
             super(cls, cls).define(pspec)
             pspec.expose_inputs(base)
+            if extra_path is not None:
+                # ... and the exposing class declares one more port, with a default, inside a namespace it exposed
+                pspec.input(extra_path + '.zz', default=3)
 
         cls = type('Ex_%d' % len(_CLS), (plumpy.Process,), {})
         cls.define = classmethod(define_exposing)
@@ -694,8 +732,10 @@ def _unaliased(value):
 def run_case(case):
     V = judges.V
     spec, inputs_desc = case['spec'], case['inputs']
-    cls = spec_class(spec, case['si'], exposed=bool(case.get('exposed')), dotted=bool(case.get('dotted')))
-    obs = {'declared_by_dotted_paths': int(bool(case.get('dotted'))), 'aliased_namespace_values': int('@SAME' in json.dumps(inputs_desc)), 'exposed_specs': int(bool(case.get('exposed'))), 'legacy_validators': int('_old' in json.dumps(spec)), 'constructed': 0, 'accepted': 0, 'rejected': 0, 'defaults_populated': 0, 'callable_defaults': 0, 'populate_defaults_false': 0,
+    cls = spec_class(spec, case['si'], exposed=case.get('exposed') or False, dotted=case.get('dotted') or False)
+    if case.get('exposed') == 'extra':
+        spec = with_extra_port(spec)  # (what the exposing class declares, for the model and the shape in messages)
+    obs = {'namespaces_declared_after_a_port_of_theirs': int(case.get('dotted') == 'redeclare'), 'declared_by_dotted_paths': int(bool(case.get('dotted'))), 'aliased_namespace_values': int('@SAME' in json.dumps(inputs_desc)), 'exposed_specs': int(bool(case.get('exposed'))), 'legacy_validators': int('_old' in json.dumps(spec)), 'constructed': 0, 'accepted': 0, 'rejected': 0, 'defaults_populated': 0, 'callable_defaults': 0, 'populate_defaults_false': 0,
            'dynamic_values': 0, 'immutability_probes': 0, 'caller_dict_checks': 0, 'metamorphic': {}, 'nested_ns_levels': 0, 'spec_errors': 0}
     if isinstance(cls, tuple):
         obs['spec_errors'] = 1
